@@ -18,7 +18,13 @@ CONSTANTS GridMaxN,        \* largest number of reporting units of the grid
 
 W124 == <<1, 2, 4>>
 W12  == <<1, 2>>
+A12 == {<<1, 2>>}
+A58 == {<<5, 8>>}
+A34 == {<<3, 4>>}
+A78 == {<<7, 8>>}
+W1 == <<1>>
 Neg3 == 0 - 3
+Neg2 == 0 - 2
 Neg1 == 0 - 1
 Alphas4 == {<<1, 2>>, <<5, 8>>, <<3, 4>>, <<7, 8>>}
 
